@@ -23,6 +23,8 @@ func checkC16(c *Ctx) {
 	c.Rule("C16/R5", "emission: each cell is placed at its column's offset, padded to the span's total width minus the margin, the running offset advances by what was printed, and blank cells are skipped so no line ends in blanks")
 
 	c.Rule("C16/R6", "level-by-level header walk: no slice in the renderers is truncated and refilled in place while another loop-carried variable still holds the same backing array and is being read (the next level must be built in fresh storage)")
+	c.Rule("C16/R8", "digit order: wherever a renderer writes a number digit by digit (footnote marks, spreadsheet column names), digits peeled off least-significant first are stored from the end of the buffer backwards, or the buffer is reversed afterwards")
+	c.Rule("C16/R9", "CSV cell references: a closure of ToCSV that derives a cell reference from the length of the row under assembly is called, inside the column loops, only after the padding closure on every path of the iteration")
 	c.Rule("C16/R7", "shrink marks stay inside the table built so far: every column index passed to SetShrink is below the layout's current column on the path that reaches the call")
 	p := mustLoad(c, loadOpts{}, "./"+ttabRel, "./"+btabRel, "./benchproc", "./benchmath", "./benchfmt", "./benchunit")
 	c16Margins(c, p)
@@ -32,6 +34,180 @@ func checkC16(c *Ctx) {
 	c16Emit(c, p)
 	c16Refill(c, p)
 	c16Shrink(c, p)
+	c16Digits(c, p)
+	c16CSVRefs(c, p)
+}
+
+// c16CSVRefs (C16/R9): the CSV renderer names the spreadsheet cell a warning belongs to by the current length of the row
+// being assembled. That is the cell's column only after the row has been padded up to the cell's first column, so inside
+// the loop over columns every path to such a call passes the padding call first.
+func c16CSVRefs(c *Ctx, p *Prog) {
+	const R = "C16/R9"
+	fn := p.Method(btabRel, "Table", "ToCSV")
+	if fn == nil {
+		c.Undecided(R, "anchor:Table.ToCSV", "", "not found")
+		return
+	}
+	site := p.pos(fn.Pos())
+	// the row under assembly: a []string local captured by closures
+	isRow := func(v ssa.Value) bool {
+		fv, ok := v.(*ssa.FreeVar)
+		if !ok {
+			return false
+		}
+		pt, ok := fv.Type().(*types.Pointer)
+		return ok && isStringSlice(pt.Elem())
+	}
+	var readers, padders []*ssa.Function
+	for _, af := range fn.AnonFuncs {
+		readsLen, stores, hasIntParam := false, false, false
+		for _, prm := range af.Params {
+			if isInteger(prm.Type()) {
+				hasIntParam = true
+			}
+		}
+		eachInstr(af, func(_ *ssa.BasicBlock, in ssa.Instruction) {
+			switch x := in.(type) {
+			case *ssa.Store:
+				if isRow(x.Addr) {
+					stores = true
+				}
+			case *ssa.Call:
+				if bi, ok := x.Call.Value.(*ssa.Builtin); ok && bi.Name() == "len" {
+					if ld, ok := x.Call.Args[0].(*ssa.UnOp); ok && isRow(ld.X) {
+						readsLen = true
+					}
+				}
+			}
+		})
+		switch {
+		case readsLen && !stores:
+			readers = append(readers, af)
+		case readsLen && stores && hasIntParam && len(naturalLoops(af)) > 0:
+			padders = append(padders, af)
+		}
+	}
+	if len(readers) == 0 {
+		c.OK(R, "csv-refs:none", site, "no closure of ToCSV derives a cell reference from the length of the row under assembly")
+		return
+	}
+	closureOf := func(call *ssa.Call) *ssa.Function {
+		if mc, ok := call.Call.Value.(*ssa.MakeClosure); ok {
+			return mc.Fn.(*ssa.Function)
+		}
+		return nil
+	}
+	in := func(fs []*ssa.Function, f *ssa.Function) bool {
+		for _, g := range fs {
+			if g == f {
+				return true
+			}
+		}
+		return false
+	}
+	loops := naturalLoops(fn)
+	n := 0
+	for _, b := range fn.Blocks {
+		for idx, ins := range b.Instrs {
+			call, ok := ins.(*ssa.Call)
+			if !ok || !in(readers, closureOf(call)) {
+				continue
+			}
+			// innermost loop containing the call
+			var lp *loopInfo
+			for _, l := range loops {
+				if l.Blocks[b] && (lp == nil || len(l.Blocks) < len(lp.Blocks)) {
+					lp = l
+				}
+			}
+			if lp == nil {
+				continue
+			}
+			start := loopBodyStart(lp)
+			if start == nil {
+				start = lp.Header
+			}
+			n++
+			// is the call reachable from the start of the iteration without a padding call?
+			pads := func(blk *ssa.BasicBlock, upto int) bool {
+				for i, in2 := range blk.Instrs {
+					if i >= upto {
+						break
+					}
+					if c2, ok := in2.(*ssa.Call); ok && in(padders, closureOf(c2)) {
+						return true
+					}
+				}
+				return false
+			}
+			unpadded := false
+			seen := map[*ssa.BasicBlock]bool{}
+			work := []*ssa.BasicBlock{start}
+			for len(work) > 0 && !unpadded {
+				blk := work[len(work)-1]
+				work = work[:len(work)-1]
+				if seen[blk] || !lp.Blocks[blk] {
+					continue
+				}
+				seen[blk] = true
+				if blk == b {
+					if !pads(blk, idx) {
+						unpadded = true
+					}
+					continue
+				}
+				if pads(blk, len(blk.Instrs)) {
+					continue
+				}
+				for _, s := range blk.Succs {
+					if s != lp.Header {
+						work = append(work, s)
+					}
+				}
+			}
+			c.Check(!unpadded, R, fmt.Sprintf("csv-refs:call#%d", n), p.pos(call.Pos()), "the row is padded to the cell's column on every path to this reference",
+				"a warning's cell reference is taken from the length of the row before the row has been padded up to the cell's first column: when earlier cells of the row are missing (or have no delta columns) the reference names an empty cell further left, while the text rendering attaches the footnote to the right column")
+		}
+	}
+	c.Floor(R, "cell references taken inside the column loops", n, 1)
+}
+
+// c16Digits (C16/R8): footnote marks and spreadsheet column names are numbers written digit by digit.
+func c16Digits(c *Ctx, p *Prog) {
+	const R = "C16/R8"
+	n := 0
+	for _, fn := range p.Funcs(btabRel, ttabRel) {
+		for _, dl := range digitLoops(fn) {
+			n++
+			key := fmt.Sprintf("%s:digits-base-%d#%d", fnName(fn), dl.Base, n)
+			site := p.pos(dl.Rem.Pos())
+			switch dl.Verdict {
+			case "backwards":
+				c.OK(R, key, site, "digits peeled least-significant first are stored from the end of the buffer backwards")
+			case "reversed":
+				c.OK(R, key, site, "digits are appended and the buffer is reversed afterwards")
+			case "forwards":
+				c.Bad(R, key, site, "digits are peeled off least-significant first but stored front to back with no reversal: every number of two or more digits is written backwards (footnote 12 is rendered as ²¹, so the mark in the table points at the wrong warning line)")
+			default:
+				c.Undecided(R, key, site, "cannot tell where the peeled digits are stored")
+			}
+		}
+	}
+	c.OK(R, "digits:loops", "", fmt.Sprintf("%d digit-peeling loops in the renderers", n))
+	ctl := mustLoad(c, loadOpts{dir: c.HomeDir + "/checker"}, "./testdata/lookbehind")
+	nCtl := 0
+	for _, fn := range ctl.Funcs("perfcheck/testdata/lookbehind") {
+		for _, dl := range digitLoops(fn) {
+			if dl.Verdict == "forwards" {
+				nCtl++
+			}
+		}
+	}
+	if nCtl == 0 {
+		c.Undecided(R, "positive-control", "", "the digit-order matcher no longer recognises its own positive example")
+	} else {
+		c.OK(R, "positive-control", "checker/testdata/lookbehind/lb.go", "matcher fires on the stored front-to-back digit loop")
+	}
 }
 
 func c16Margins(c *Ctx, p *Prog) {
@@ -123,6 +299,83 @@ func c16Margins(c *Ctx, p *Prog) {
 				}
 				ok2 = f == colF
 			}
+		}
+		// every cell is measured: inside its loop the computation is reached on every iteration (no cell is skipped before
+		// it — the emitter prints a cell's margin even when its text is empty)
+		for _, lp := range naturalLoops(fn) {
+			if !lp.Blocks[bo.Block()] {
+				continue
+			}
+			inner := false
+			for _, lp2 := range naturalLoops(fn) {
+				if lp2 != lp && lp2.Blocks[bo.Block()] && len(lp2.Blocks) < len(lp.Blocks) {
+					inner = true
+				}
+			}
+			if inner {
+				continue
+			}
+			start := loopBodyStart(lp)
+			if start == nil {
+				continue
+			}
+			// enumerate the paths from the start of an iteration back to the header that avoid the computation; a skip is
+			// harmless only when it mirrors the emitter's own skip, i.e. the path tests both the text and the margin
+			skipped := false
+			mentions := func(v ssa.Value, f *types.Var) bool {
+				found := false
+				var walk func(v ssa.Value, d int)
+				walk = func(v ssa.Value, d int) {
+					if d > 6 || found {
+						return
+					}
+					if g, _ := loadOfField(v); g == f {
+						found = true
+						return
+					}
+					if g, _ := fieldOfVal(v); g == f {
+						found = true
+						return
+					}
+					if in, ok := v.(ssa.Instruction); ok {
+						var ops []*ssa.Value
+						for _, o := range in.Operands(ops) {
+							if *o != nil {
+								walk(*o, d+1)
+							}
+						}
+					}
+				}
+				walk(v, 0)
+				return found
+			}
+			var dfs func(b *ssa.BasicBlock, onPath map[*ssa.BasicBlock]bool, sawValue, sawMargin bool, depth int)
+			dfs = func(b *ssa.BasicBlock, onPath map[*ssa.BasicBlock]bool, sawValue, sawMargin bool, depth int) {
+				if skipped || depth > 24 || b == bo.Block() || onPath[b] {
+					return
+				}
+				if b == lp.Header {
+					if !(sawValue && sawMargin) {
+						skipped = true
+					}
+					return
+				}
+				if !lp.Blocks[b] {
+					return
+				}
+				onPath[b] = true
+				if ifi, ok := b.Instrs[len(b.Instrs)-1].(*ssa.If); ok {
+					sawValue = sawValue || mentions(ifi.Cond, valueF)
+					sawMargin = sawMargin || mentions(ifi.Cond, marginF)
+				}
+				for _, s := range b.Succs {
+					dfs(s, onPath, sawValue, sawMargin, depth+1)
+				}
+				delete(onPath, b)
+			}
+			dfs(start, map[*ssa.BasicBlock]bool{}, false, false, 0)
+			c.Check(!skipped, R, fmt.Sprintf("Format:cell-width#%d:every-cell", n), p.pos(bo.Pos()), "computed on every iteration of the cell loop",
+				"some cells are skipped before their width is computed: a cell whose text is empty but whose left margin is visible (a rule column) is still printed by the emitter, so its column gets width 0, the margin overruns it and the following columns start at different offsets on lines with and without that cell")
 		}
 		c.Check(ok2, R, fmt.Sprintf("Format:cell-width#%d", n), p.pos(bo.Pos()), "text width + the column's margin from the margin table",
 			"a cell's width is computed with something other than its column's entry in the margin table (e.g. the cell's own margin): the emitter pads with the column's margin, so a span narrower-margined than its start column overruns and later cells on that line shift right")
